@@ -2209,6 +2209,11 @@ func (w *world) discover() result {
 		return res
 	}
 	for k := range rep.json {
+		if _, isClaim := p.expected[k]; isClaim {
+			// a credential-derived claim of the baseline definition (the extended answer carries them since the repair of
+			// C02-extclaims), not a member of the answer type
+			continue
+		}
 		res.Members = append(res.Members, k)
 	}
 	sort.Strings(res.Members)
